@@ -57,6 +57,12 @@ CHECKS = {
         "technique": SMT + "; symbolic coefficients through the real form evaluation",
         "design_ref": "DESIGN.md section 5 (C13)",
     },
+    "C09": {
+        "text": "Bounded symbolic check: the real add_neumann / lineLoad / surfLoad / volumeLoad / pressureLoad and the Hermitian beam add_lineLoad run with symbolic load coefficients (constant, nodal array sampled from a linear field, polynomial function of position), symbolic thickness / pressure and a symbolic moment reference point, on real meshes of every boundary type (prism faces mixing triangles and quadrangles, selections with stray nodes) and inclined beams; the resultant and the first moment of the nodal force vector about ANY point are compared with closed-form integrals as linear / bilinear identities decided by z3; stray nodes must carry exactly zero.",
+        "note": "Trusted: Sym arithmetic, z3, the closed-form integrals over faces of the unit square / cube. Densities of degree <= 1, loaded regions = whole faces (plus stray nodes); the sign convention of the pressure resultant (+-n) is read at the shadow point, outwardness belongs to C08.",
+        "technique": SMT + "; linear / bilinear identities in symbolic load coefficients",
+        "design_ref": "DESIGN.md section 5 (C09)",
+    },
 }
 
 NOT_APPLICABLE = {
